@@ -626,6 +626,43 @@ func init() {
 	totalModelGens["chainctx"] = totalChainctxGen
 }
 
+// totalChainctxHeavy: does the real reader decode more than `limit` map entries (coverage, class
+// tables, coverage sets) from this input?  The Lean model keeps maps as association lists (the
+// size pass of format 2 looks every glyph of a class range up in them), so one mutated line with a
+// 65000-glyph class range costs seconds in the compiled driver; the quick tier leaves such
+// generated lines out (the thorough tier keeps them).
+func totalChainctxHeavy(b []byte, pos, limit int) (heavy bool) {
+	defer func() {
+		if recover() != nil {
+			heavy = false
+		}
+	}()
+	if pos < 0 || pos+2 > len(b) {
+		return false
+	}
+	if totalChainctxOtherKeys[(60+(int(b[pos])<<8|int(b[pos+1])))&0xffff] {
+		return false
+	}
+	st, err := gtab.VerifReadGsubSubtable(b, int64(pos), 6)
+	if err != nil {
+		return false
+	}
+	n := 0
+	switch l := st.(type) {
+	case *gtab.ChainedSeqContext1:
+		n = len(l.Cov)
+	case *gtab.ChainedSeqContext2:
+		n = len(l.Cov) + len(l.Backtrack) + len(l.Input) + len(l.Lookahead)
+	case *gtab.ChainedSeqContext3:
+		for _, ll := range [][]coverage.Set{l.Backtrack, l.Input, l.Lookahead} {
+			for _, s := range ll {
+				n += len(s)
+			}
+		}
+	}
+	return n > limit
+}
+
 func totalChainctxGen(c *Ctx, r *Rng, seeds []totalSeed) {
 	budget := c.N / 3
 	cnt, limit := 0, 0
@@ -639,6 +676,10 @@ func totalChainctxGen(c *Ctx, r *Rng, seeds []totalSeed) {
 			return false
 		}
 		seen[key] = true
+		if !force && c.Tier != "thorough" && totalChainctxHeavy(b, pos, 6000) {
+			c.Stat("tmchainctx:read:gen", "left-out-heavy")
+			return false
+		}
 		out := c.Case(Verdict, "tmchainctx.read", "bytes="+hx(b)+" pos="+strconv.Itoa(pos), len(b) >= 6)
 		cnt++
 		c.Stat("tmchainctx:read", totalChainctxClass(out))
@@ -657,9 +698,9 @@ func totalChainctxGen(c *Ctx, r *Rng, seeds []totalSeed) {
 			emit("structured-prefix", append(append([]byte{}, pre...), t.b...), len(pre), true)
 		}
 	}
-	// inputGlyphCount = 0 with all 65535 input glyphs present (3 big lines per run): the rule is
-	// accepted with a 65535-entry input in format 1 and format 2 (the size pass of format 2 sees
-	// one rule: pos = 4 ≤ 0xFFFF); and one byte short of it
+	// inputGlyphCount = 0 with all 65535 input glyphs present (3 big lines, thorough tier only).
+	// Before the repair C02-zero-count (nested.go:746, 1083) the rule was accepted with a
+	// 65535-entry input in format 1 and format 2; now it is refused as invalid.
 	{
 		z := totalChainctxRule{igc: 0, slc: -1, input: make([]int, 65535)}
 		for i := range z.input {
@@ -668,10 +709,11 @@ func totalChainctxGen(c *Ctx, r *Rng, seeds []totalSeed) {
 		cov2 := totalChainctxCov([]int{5, 9})
 		cd := totalChainctxW(2, 1, 1, 3, 1)
 		f1 := totalChainctxBuild1(cov2, [][]totalChainctxRule{{z}, nil}, -1, 0)
-		// (the Lean model works on lists, a read at position q costs O(q): one such line takes
-		// about 35 s there, so the quick tier has one of them)
-		emit("igc0-full", f1, 0, true)
+		// (262 KB lines; while the rule was accepted one such line took 35 s in the compiled Lean
+		// driver — lists, a read at position q costs O(q).  The quick tier keeps the zero-count
+		// rules WITHOUT the data behind them: f1-igc0-short and f2-igc0-short above.)
 		if c.Tier == "thorough" {
+			emit("igc0-full", f1, 0, true)
 			emit("igc0-full", totalChainctxBuild2(cov2, [3][]byte{cd, cd, cd}, [][]totalChainctxRule{{z}, nil}, 0), 0, true)
 			emit("igc0-full", f1[:len(f1)-5], 0, true)
 		}
